@@ -95,8 +95,11 @@ def run_case(seed, index, props):
     return viol, tags, desc, 'ok'
 
 
+DEFAULT_BUDGET = {'quick': 1000, 'thorough': 20000}
+
+
 def run(props, tier, seed, budget=None):
-    return generic_run('query', run_case, props, seed, budget or (800 if tier == 'quick' else 20000),
+    return generic_run('query', run_case, props, seed, budget or DEFAULT_BUDGET[tier],
                        'seeded random task lists (1-5 tasks, attributes present/absent/None incl. property-backed estimate/spent) x 1-2 filters over the 11 suffixes and plain equality, on WBS.tasks / roots / children; then bulk assignment and remove_all with the same filter; distinct by (WBS, filter)',
                        lambda d: d if d.get('filter') else None)
 
